@@ -24,9 +24,9 @@ def build(tier, seed, exclude):
     g.raw(HELPERS)
     quick = tier == "quick"
     to = 100 if quick else 400
-    modes = [0, 2, 3, 4, 5, 6, 7, 8, 9, 10, 11]
+    modes = [0, 2, 3, 4, 5, 6, 7, 8, 9, 10, 11, 12, 13]        # 12 / 13: the body ends in SystemExit / KeyboardInterrupt
     # one condition per mode group so that the 16 cores share the work
-    groups = [[0], [5, 10, 11], [2, 3, 4, 6], [7, 8, 9]]
+    groups = [[0], [5, 10, 11], [2, 3, 4, 6], [7, 8, 9], [12, 13]]
     for k, grp in enumerate(groups):
         g.cond(f"h_modes_{k}", "mi: int, x: int, again: bool", [f"0 <= mi < {len(grp)} and 0 <= x <= 2"], f"""
             mode = {grp!r}[T.real(mi)]
@@ -63,6 +63,19 @@ def build(tier, seed, exclude):
             return T.fail(lambda: "second submission: bodies %d -> %d (the successful node is reused, the failed one executes again)" % (n1, n2))
         return True
     """, timeout=to)
+    # a split node one element of which failed earlier, resubmitted under a concurrency limit: the failed element is executed again
+    pre_s = ["1 <= n <= 3 and 0 <= k <= 3"]
+    if "C13-stale-error-with-max-concurrent" in exclude:
+        pre_s.append("k == 0 or k >= n")          # recorded finding: a finite limit smaller than the node's job count
+    g.cond("h_stale_error_split_limited", "n: int, k: int", pre_s, """
+        kk = T.real(k)
+        err = EN.split_resubmission(T.real(n), None if kk == 0 else kk, "stale_error")
+        return T.fail(err) if err else True
+    """, timeout=to)
+    g.witness("w_stale_error_limited", """
+        err = EN.split_resubmission(2, 1, "stale_error")
+        return T.fail(err) if err else True
+    """)
     g.cond("twin_c13", "x: int", ["0 <= x <= 1"], """
         err = EN.c13(5, T.real(x), False)
         return False
